@@ -19,11 +19,21 @@ THEOREMS = [
     "PorepyVerif.C44.clip_convex_dropped_on_boundary",
     "PorepyVerif.C44.clip_simple_sound_partial",
     "PorepyVerif.C44.clip_simple_piece_off_boundary",
+    "PorepyVerif.C44.clip_simple_piece_inside",
+    "PorepyVerif.C44.clip_simple_dropped_not_inside",
     "PorepyVerif.C44.clip_simple_cover",
+    "PorepyVerif.C44.clip_simple_exact_evenodd",
     "PorepyVerif.C44.merge_union",
     "PorepyVerif.C44.clip_simple_merge_union",
     "PorepyVerif.C44.sh_clip_sound",
     "PorepyVerif.C44.sh_clip_inside_unchanged",
+    "PorepyVerif.C44.sh2_complete1",
+    "PorepyVerif.C44.sh2_sound1",
+    "PorepyVerif.C44.sh2_convex1",
+    "PorepyVerif.C44.sh2_complete",
+    "PorepyVerif.C44.sh2_sound",
+    "PorepyVerif.C44.sh_clip_planar",
+    "PorepyVerif.C44.sh_clip_complete_planar",
 ]
 LEAN_MODULES = ["PorepyVerif.C44.Props"]
 AUDIT = "PorepyVerif/C44/Audit.lean"
@@ -42,16 +52,20 @@ RULE = ("70% `lines` cases: a simple polygon with integer (sometimes one dyadic)
 TRUSTED = [
     "the Lean model is the exact SPECIFICATION (lines_by_polygon delegates to shapely/GEOS, polygons_by_polyhedron to polygons_3d, "
     "point_in_polyhedron, networkx): the code itself is tied to it by correspondence and oracle only",
-    "simple polygons: inside = even-odd rule; the Jordan-curve step (an open piece that avoids the boundary is entirely inside or "
-    "outside) is not proved — see clip_simple_* theorems for what is",
-    "polygons_by_polyhedron: Sutherland-Hodgman over Q (sh_clip_sound proved; that its output IS polygon ∩ polyhedron is not proved) "
-    "and an independent exact python reference in the oracle",
+    "simple polygons: inside is DEFINED by the even-odd rule; that this rule decides the topological interior of a simple polygon "
+    "(Jordan curve theorem for polygons, independence of the ray direction) is not proved",
+    "Sutherland-Hodgman: the region of a convex counter-clockwise polygon is its H-representation (left of every edge); its equality "
+    "with the convex hull of the vertices (Minkowski-Weyl) is not proved — relevant for degenerate outputs (< 3 distinct vertices); "
+    "the oracle uses an independent exact python reference",
     "binary64 rounding inside GEOS / numpy: pieces are compared by their parameters along the input segment with tolerance 1e-9",
 ]
-EXPLANATION = ("CORE: convex case fully proved (returned interval = segment ∩ region, both inclusions, all inputs); non-convex case "
-               "partially proved (partition by cuts, kept iff midpoint strictly inside, open pieces never meet the boundary); "
-               "lines_by_polygon is compared piece by piece (merged parameter intervals per input segment, kept edges, tags) with the "
-               "model, and for convex polygons the two models (half-planes / crossings) are compared with each other; "
+EXPLANATION = ("CORE: convex region fully proved (returned interval = segment ∩ region, both inclusions, all inputs). Arbitrary polygons: "
+               "clip_simple_exact_evenodd — off the finitely many cut parameters, t lies in a returned piece iff s(t) is strictly inside by the "
+               "even-odd rule (every point of a piece, not only the midpoint; ray along the segment; the horizontal-ray rule is cross-checked "
+               "by the driver on every case). Sutherland-Hodgman: soundness in 3d; completeness + soundness + preservation of convexity for "
+               "convex counter-clockwise polygons against a half-plane list in the plane of the polygon (H-representation), transported to 3d "
+               "by sh_clip_planar. lines_by_polygon is compared piece by piece (merged parameter intervals per input segment, kept edges, "
+               "tags) with the model, and for convex polygons the half-plane model and the crossing model are compared with each other; "
                "polygons_by_polyhedron: total area per input polygon vs exact Sutherland-Hodgman and containment of every returned vertex.")
 ASSUMPTIONS = [
     "convention of the code: what is returned is the closure of (input ∩ INTERIOR of the region): zero-length pieces (touching a vertex "
@@ -685,6 +699,8 @@ def model_decode(outs, case):
             o = outs[k]
             k += 1
             merged = o["merged"]
+            if o["raw_std"] != o["raw"]:
+                return {"err": f"model-internal: even-odd rule along the segment selects {o['raw']}, the horizontal-ray rule {o['raw_std']}"}
             if conv:
                 oc = outs[k]
                 k += 1
